@@ -384,6 +384,15 @@ theorem coordinator_address_plain (host : String) (port : Int) (h : host.contain
     coordinatorAddress host port = host ++ ":" ++ toString port := by
   simp [coordinatorAddress, h]
 
+/-! ### nothing configured: the documented defaults are the configured values -/
+
+/-- regenerated: every `if config.<F> == 0 { config.<F> = … }` of `ConsumerGroupConfig.Validate`, resolved through the
+`default…` constants, gives the documented default of that field (3 s heartbeats, 30 s session and rebalance time-outs,
+5 s join back-off and watch interval, retention -1, FirstOffset, [range, roundrobin], 5 s time-out) — whatever the order
+of the statements -/
+theorem defaults_match_documentation :
+    documentedGroupDefaults.all (fun kv => KV.Gen.Group.validateDefaults.lookup kv.1 == some kv.2) = true := by decide
+
 /-! ### a generation only after a successful OffsetFetch (hypothesis of C03 `start_at_committed`) -/
 
 /-- a failed OffsetFetch — any error class — makes `nextGeneration` return the error: no generation can be created next -/
